@@ -714,8 +714,10 @@ func c08deps(v ssa.Value, ctx c08ctx) map[string]bool {
 				walk(e, ctx, d+1)
 			}
 			// control dependence of the merge
+			// (function-local conditions only: what guards the CALL of a helper is the guard of the write, not a
+			// dependence of the value the helper computes)
 			for _, p := range y.Block().Preds {
-				for _, ft := range factsAt(p) {
+				for _, ft := range localFactsAt(p) {
 					walk(ft.Cond, ctx, d+1)
 				}
 			}
